@@ -100,6 +100,17 @@ func InlinedPaths(p *core.Prog, f *ssa.Function, o inlineOpts) []IPath {
 					if cal := x.Call.StaticCallee(); cal != nil && cal.Pkg != nil && cal.Pkg.Pkg.Path() == "sync" && (cal.Name() == "Unlock" || cal.Name() == "RUnlock") {
 						deferredUnlock = true
 					}
+				case *ssa.MapUpdate:
+					ev := Event{Kind: "mapupdate", Instr: in, Locked: locked > 0 || deferredUnlock && lockedEver(rp.Path, in)}
+					ev.Target = destKind(x.Map)
+					ev.Elems = []*core.Term{rp.Env.Term(x.Key)}
+					ev.Val = rp.Env.Term(x.Value)
+					for i := range cur {
+						e2 := ev
+						e2.Elems = applySubsAll(ev.Elems, subs[i])
+						e2.Val = applySubs(ev.Val, subs[i])
+						cur[i].Events = append(cur[i].Events, e2)
+					}
 				case *ssa.Store:
 					ev := Event{Instr: in, Locked: locked > 0 || deferredUnlock && locked >= 0 && lockedEver(rp.Path, in)}
 					if call, ok := x.Val.(*ssa.Call); ok {
@@ -166,7 +177,7 @@ func InlinedPaths(p *core.Prog, f *ssa.Function, o inlineOpts) []IPath {
 						continue
 					}
 					h := cc.StaticCallee()
-					open := h != nil && len(h.Blocks) > 0 && core.FuncPkg(h) == o.pkg && h.Synthetic == "" && o.depth < 3 && h != f && (o.stop == nil || !o.stop(h))
+					open := h != nil && len(h.Blocks) > 0 && core.FuncPkg(h) == o.pkg && (h.Synthetic == "" || strings.HasPrefix(h.Synthetic, "instance of")) && o.depth < 3 && h != f && (o.stop == nil || !o.stop(h))
 					if !open {
 						ev := Event{Kind: "call", Callee: core.CalleeName(cc), Instr: in, Locked: locked > 0}
 						if cc.IsInvoke() || ev.Callee == "dyn" {
@@ -298,6 +309,9 @@ func feasibleX(atoms []core.Atom) bool {
 	for _, a := range atoms {
 		n := a.Norm()
 		t := n.Cond
+		if t.IsConst("true") && !n.Sign || t.IsConst("false") && n.Sign {
+			return false
+		}
 		if t.Op != "binop" || t.Name != "==" || len(t.Args) != 2 || !t.Args[1].IsConst("nil") {
 			continue
 		}
